@@ -19,9 +19,15 @@ def gen_seq(rng, maxlen):
     nw = rng.randint(1, 6)
     v = 0
     closed_p = rng.choice([0.0, 0.01, 0.03, 0.08])
+    disjoint = rng.random() < 0.5 and nw >= 2
+    ks = rng.randint(1, nw - 1) if disjoint else nw
+    if ops[0] == "new sync" and rng.random() < 0.5:
+        closed_p = rng.choice([0.05, 0.1])
     for _ in range(n):
         r = rng.random()
         w = rng.randrange(nw)
+        if disjoint:
+            w = rng.randrange(ks) if r < 0.36 else (ks + rng.randrange(nw - ks) if r < 0.72 else w)
         if r < 0.36:
             v += 1
             view = "bi" if rng.random() < 0.85 else rng.choice(["wo", "ro"])
@@ -45,12 +51,23 @@ def spec_monitor(ops, outs):
     """The property itself, checked on a stream of (request, response) pairs, independent of the
     model: FIFO, exactly-once, capacity, close. Returns None or (index, message)."""
     fifo, cap, closed = [], 1, False
+    pending, recv_parked = {}, set()     # sync senders whose deposited value is still untaken; waiters parked as receivers
     for i, (op, out) in enumerate(zip(ops, outs)):
         t = op.split()
         o = out.split()
         if t[0] == "new":
             fifo, closed = [], False
+            pending, recv_parked = {}, set()
             cap = 1 if t[1] == "sync" else int(t[2])
+        elif t[0] == "runnable":
+            # "a synchronous sender does not proceed until its value has been taken": the scheduler's query must not
+            # hand out a waiter that is parked only as the sender of a value still sitting in the slot
+            if o[0] not in ("-", "?"):
+                w = int(o[0])
+                if w in pending and pending[w] in fifo and w not in recv_parked:
+                    return i, "runnable_waiter released waiter %d, a synchronous sender whose value %d has not been taken" % (w, pending[w])
+                if w not in pending:
+                    recv_parked.discard(w)
         elif t[0] == "send":
             if o[0] in ("ok", "fullblock"):
                 if t[1] == "ro":
@@ -58,6 +75,8 @@ def spec_monitor(ops, outs):
                 if closed:
                     return i, "send accepted after close"
                 fifo.append(int(t[3]))
+                if o[0] == "fullblock":
+                    pending[int(t[2])] = int(t[3])
                 if len(fifo) > cap:
                     return i, "queue holds %d values, capacity %d" % (len(fifo), cap)
             elif o[0] == "closed":
@@ -75,9 +94,12 @@ def spec_monitor(ops, outs):
                 if not fifo:
                     return i, "received %s but nothing was queued (invented value)" % o[1]
                 exp = fifo.pop(0)
+                pending = {w: v for w, v in pending.items() if v != exp}
                 if o[1] != str(exp):
                     return i, "received %s, expected %d (order/duplication/drop)" % (o[1], exp)
             elif o[0] in ("empty", "emptyblock", "closed"):
+                if o[0] != "closed":
+                    recv_parked.add(int(t[2]))
                 if fifo and t[1] != "wo":
                     return i, "receive reported %s while %d values are queued (dropped)" % (o[0], len(fifo))
                 if o[0] == "closed" and not closed:
